@@ -237,7 +237,136 @@ func checkC02(c *Ctx) {
 	requestAllocatedPerRequest(c, ep, "R02l")
 	r.Rule("R02j", "the URL value handed to the kind conversion is the value taken from the URL, unmodified", 1)
 	convertKeepsValue(c, ep, "R02j")
+	r.Rule("R02m", "each string the URL binders convert is an element of the URL's own value list (r.PathValue / r.URL.Query()), never a derived string", 3)
+	urlValueProvenance(c, ep, "R02m")
+	c02PathVariableAgreement(c)
 	c02ParamTableFidelity(c)
+}
+
+// urlValueProvenance — R02m. In the emitted bindPathParams / bindQueryParams every first argument of the kind conversion is traced
+// back through locals, index expressions and range statements to its origin, which must be r.PathValue(…) or an element of
+// r.URL.Query()[…] (url.Values.Get included). Any library call on the way (strings.Split, TrimSpace, Join, ToLower, url.*Unescape …)
+// means the handler receives something else than the URL carried; a call of another emitted function is not followed (UNDECIDED).
+func urlValueProvenance(c *Ctx, ep *EmittedPkg, rid string) {
+	r := c.R
+	conv := ep.Funcs["convertStringToFieldValue"]
+	if conv == nil {
+		r.Unres(rid, "convertStringToFieldValue", "", "emitted function not found")
+		return
+	}
+	for _, name := range []string{"bindPathParams", "bindQueryParams"} {
+		fd := ep.Funcs[name]
+		if fd == nil {
+			r.Unres(rid, name, "", "emitted function not found")
+			continue
+		}
+		// definitions of locals: object -> defining expression (or the ranged expression, marked)
+		type def struct {
+			e     ast.Expr
+			elems bool // the local is an element (range value) of e
+			n     int
+		}
+		defs := map[types.Object]*def{}
+		note := func(id *ast.Ident, e ast.Expr, elems bool) {
+			o := ep.Info.ObjectOf(id)
+			if o == nil {
+				return
+			}
+			if d := defs[o]; d != nil {
+				d.n++
+				return
+			}
+			defs[o] = &def{e: e, elems: elems, n: 1}
+		}
+		ast.Inspect(fd.Body, func(n ast.Node) bool {
+			switch x := n.(type) {
+			case *ast.AssignStmt:
+				if len(x.Lhs) == len(x.Rhs) {
+					for i, l := range x.Lhs {
+						if id, ok := l.(*ast.Ident); ok && id.Name != "_" {
+							note(id, x.Rhs[i], false)
+						}
+					}
+				} else if len(x.Rhs) == 1 {
+					for _, l := range x.Lhs {
+						if id, ok := l.(*ast.Ident); ok && id.Name != "_" {
+							note(id, x.Rhs[0], false)
+						}
+					}
+				}
+			case *ast.RangeStmt:
+				if id, ok := x.Value.(*ast.Ident); ok && id.Name != "_" {
+					note(id, x.X, true)
+				}
+			}
+			return true
+		})
+		isURLValues := func(t types.Type) bool { return t != nil && t.String() == "net/url.Values" }
+		var trace func(e ast.Expr, depth int) (string, bool) // (reason, decided-bad); "" = fine
+		trace = func(e ast.Expr, depth int) (string, bool) {
+			if depth > 8 {
+				return "definition chain too long", false
+			}
+			e = ast.Unparen(e)
+			switch x := e.(type) {
+			case *ast.Ident:
+				o := ep.Info.ObjectOf(x)
+				d := defs[o]
+				if d == nil {
+					return "no definition of " + x.Name + " in the binder", false
+				}
+				if d.n > 1 {
+					return x.Name + " is assigned more than once", false
+				}
+				return trace(d.e, depth+1)
+			case *ast.IndexExpr:
+				if isURLValues(ep.Info.TypeOf(x.X)) {
+					return trace(x.X, depth+1) // query[name]: the value list of one key
+				}
+				return trace(x.X, depth+1) // values[0]
+			case *ast.CallExpr:
+				f := ep.CalleeOf(x)
+				switch qname(f) {
+				case "net/http.(Request).PathValue", "net/url.(URL).Query", "net/url.(Values).Get":
+					return "", false
+				}
+				if f != nil && f.Pkg() == ep.Pkg {
+					return "the value passes through the emitted function " + f.Name() + " (not followed)", false
+				}
+				return "the value passes through " + ep.Text(x.Fun) + "(…)", true
+			case *ast.SliceExpr, *ast.BinaryExpr, *ast.BasicLit, *ast.CompositeLit:
+				return "the value is " + ep.Text(e), true
+			case *ast.SelectorExpr:
+				return "the value is read from " + ep.Text(e), false
+			}
+			return "unrecognised expression " + ep.Text(e), false
+		}
+		n := 0
+		ast.Inspect(fd.Body, func(nd ast.Node) bool {
+			call, ok := nd.(*ast.CallExpr)
+			if !ok || len(call.Args) == 0 {
+				return true
+			}
+			if f := ep.CalleeOf(call); f == nil || ep.RecName(f) != "convertStringToFieldValue" {
+				return true
+			}
+			n++
+			key := fmt.Sprintf("%s: conversion #%d receives an element of the URL's value list", name, n)
+			reason, bad := trace(call.Args[0], 0)
+			switch {
+			case reason == "":
+				r.OK(rid, key, ep.GenPos(call.Pos()))
+			case bad:
+				r.Bad(rid, key, ep.GenPos(call.Pos()), name+" converts "+ep.Text(call.Args[0])+", but "+reason+": the handler receives strings the URL did not carry (a repeated value containing the separator is split, a value is trimmed/re-cased/re-decoded), or a malformed value is accepted instead of answered with 400", nil)
+			default:
+				r.Undec(rid, key, ep.GenPos(call.Pos()), reason)
+			}
+			return true
+		})
+		if n == 0 {
+			r.Unres(rid, name, ep.GenPos(fd.Pos()), "no call of convertStringToFieldValue found")
+		}
+	}
 }
 
 func objOf(ep *EmittedPkg, name string) *types.Func {
@@ -768,4 +897,70 @@ func convertKeepsValue(c *Ctx, ep *EmittedPkg, rid string) {
 	}
 	r.Check(len(strParams) > 0 && bad == "", rid, "convertStringToFieldValue converts the URL value as given", pos,
 		"convertStringToFieldValue rewrites the URL value before converting it ("+bad+"): for string fields the handler no longer receives the value given in the URL (leading/trailing blanks, case, …)")
+}
+
+// c02PathVariableAgreement — R02n. A path parameter of the published OpenAPI operation promises the caller that the value put
+// into that URL segment reaches the request field of that name. The Go server keeps that promise only for the variables listed
+// in its emitted PathParamConfig table. For route configurations with variables in the method path and in the service base
+// path, both sides are evaluated (OpenAPI: extractMethodHTTPInfo interpreted; Go server: the table lines reconstructed) and
+// every variable the contract binds must be bound by the server.
+func c02PathVariableAgreement(c *Ctx) {
+	r := c.R
+	r.Rule("R02n", "every path parameter the OpenAPI operation binds to a request field is in the Go server's path-binding table (also for variables of the service base path)", 4)
+	ri := c.c03Root(pkgHTTP, "_http.pb.go")
+	if ri == nil {
+		r.Unres("R02n", "_http.pb.go", "", "unit root not found")
+		return
+	}
+	tabRe := regexp.MustCompile(`URLParam:\s*"([^"]*)",\s*FieldName:\s*"([^"]*)"`)
+	for _, s := range []c03Scenario{
+		{Base: "/zqb", Cfg: &c03Cfg{Path: "/zqp/{pvone}", Method: "GET"}},
+		{Base: "/zqb/{pvbase}", Cfg: &c03Cfg{Path: "/zqp/{pvone}", Method: "POST"}},
+		{Base: "/zqb/{pvbase}/v1/", Cfg: &c03Cfg{Path: "/{pvone}/zqp/{pvtwo}", Method: "PUT"}},
+		{Base: "/{pvbase}", Cfg: &c03Cfg{Path: "/zqp", Method: "PATCH"}},
+		{Base: "", Cfg: &c03Cfg{Path: "/zqp/{pvone}/{pvtwo}", Method: "DELETE"}},
+	} {
+		run := c.runScenario(ri.Fn, s)
+		if run.Aborted != "" {
+			r.Unres("R02n", "Go server table: "+s.String(), "", run.Aborted)
+			continue
+		}
+		bound := map[string]bool{}
+		pos := ""
+		for _, u := range run.Units {
+			for _, l := range u.Lines {
+				if m := tabRe.FindStringSubmatch(keyText(l.Segs)); m != nil {
+					pos = c.P.Pos(l.Pos)
+					if m[1] == m[2] {
+						bound[m[1]] = true
+					} else {
+						r.Bad("R02n", "Go server path table entry binds the variable to the field of its own name ("+s.String()+")", pos,
+							fmt.Sprintf("%s: the emitted PathParamConfig binds URL variable %q to field %q", s, m[1], m[2]), nil)
+					}
+				}
+			}
+		}
+		_, _, ops, opos, oerr := c.observeOpenAPI(s)
+		if oerr != "" {
+			r.Unres("R02n", "OpenAPI path parameters: "+s.String(), opos, oerr)
+			continue
+		}
+		var missing []string
+		for _, p := range ops {
+			if !bound[p] {
+				missing = append(missing, p)
+			}
+		}
+		for _, p := range s.params() {
+			if !bound[p] {
+				missing = append(missing, p+" (method path)")
+			}
+		}
+		if pos == "" {
+			pos = opos
+		}
+		r.CheckD(len(missing) == 0, "R02n", "contract-bound path variables are server-bound: "+s.String(), opos,
+			fmt.Sprintf("%s: the OpenAPI operation declares path parameters %v (each bound to the request field of that name) but the Go server's PathParamConfig table binds only %v — %v is carried in the URL and never reaches the handler's request message", s, ops, sortedKeys(bound), missing),
+			map[string]any{"openapi": ops, "go_server_table": sortedKeys(bound)})
+	}
 }
